@@ -29,7 +29,9 @@ def main():
                 if os.environ.get("SHOWOBL"):
                     for o in r["obligations"]: print("     ", o["name"], o["verdict"], o.get("how"), o.get("seconds"), o["expect"])
                 for e in r["errors"]: print("   ERROR:", e)
-                for vv in r["violations"]: print("   VIOLATION:", vv["ob"], vv["site"], vv.get("why"), json.dumps(vv["model"])[:400])
+                for vv in r["violations"]:
+                    print("   VIOLATION:", vv["ob"], vv["site"], vv.get("why"), json.dumps(vv["model"])[:200])
+                    if vv.get("sym_exc"): print(vv["sym_exc"]["tb"]); print(vv["replay"])
             print(f"{c.name}: {n} paths, pending {len(pending)}, {time.time()-t0:.1f}s")
         else:
             model = {}
